@@ -159,6 +159,53 @@ def replay_input(fz, data, timeout_s):
         shutil.rmtree(d, ignore_errors=True)
 
 
+def length_sweep_cases(ck, tier):
+    """every length 1..N of each string-bearing construct (fixed-size scratch buffers are a classic off-by-one site):
+    attribute values of every declared type, names, ids, literals, tokens; with DTD validation on and off"""
+    C = []
+    top = 300 if tier == 'quick' else 1100
+    lens = list(range(0, top + 1)) + [x + d for x in (512, 1023, 1024, 2048, 4096, 8192, 16384, 32768, 65536) for d in (-1, 0, 1) if x + d > top]
+    D = ('<!DOCTYPE r [<!ELEMENT r ANY><!ELEMENT e EMPTY><!NOTATION n SYSTEM "n"><!ENTITY u SYSTEM "u" NDATA n>'
+         '<!ATTLIST e c CDATA #IMPLIED t NMTOKEN #IMPLIED ts NMTOKENS #IMPLIED i ID #IMPLIED f IDREF #IMPLIED fs IDREFS #IMPLIED en ENTITY #IMPLIED ens ENTITIES #IMPLIED '
+         'no NOTATION (n) #IMPLIED em (%s) #IMPLIED>%s]>')
+    for L in lens:
+        s = ('x' * L)
+        nm = ('n' * L) if L else 'n'
+        variants = {
+            'cdata': ('', '<e c="%s"/>' % s),
+            'nmtoken': ('', '<e t="%s"/>' % (s or 'x')),
+            'nmtokens': ('', '<e ts="%s"/>' % ' '.join(['ab'] * (L // 3 + 1))[:max(L, 1)].strip() or 'a'),
+            'id': ('', '<e i="%s"/>' % nm),
+            'idref': ('', '<e i="%s"/><e f="%s"/>' % (nm, nm)),
+            'idrefs': ('', '<e i="a"/><e fs="%s"/>' % (' '.join(['a'] * (L // 2 + 1)))),
+            'enum': (nm, '<e em="%s"/>' % nm),
+            'entity-attr': ('<!ENTITY %s SYSTEM "u" NDATA n>' % nm, '<e en="%s"/>' % nm),
+            'entities-attr': ('', '<e ens="%s"/>' % ' '.join(['u'] * (L // 2 + 1))),
+            'element-name': ('<!ELEMENT %s EMPTY>' % nm, '<%s/>' % nm),
+            'attr-name': ('<!ATTLIST e %s CDATA #IMPLIED>' % nm, '<e %s="1"/>' % nm),
+            'entity-ref': ('<!ENTITY %s "v">' % nm, '&%s;' % nm),
+            'pi-target': ('', '<?%s d?>' % nm),
+            'text': ('', s + '<e/>' + s),
+            'comment': ('', '<!--%s-->' % s),
+            'default-value': ('<!ATTLIST e dv NMTOKEN "%s">' % (s or 'x'), '<e/>'),
+            'pubid-sysid': ('<!ENTITY x PUBLIC "%s" "%s">' % (s, s), '<e/>'),
+            'ns-prefix-uri': ('<!ATTLIST r xmlns:%s CDATA #IMPLIED>' % nm, '<e/>'),
+        }
+        for vname, (decl, body) in variants.items():
+            enum = nm if vname == 'enum' else 'v'
+            if vname == 'enum':
+                decl = ''
+            text = (D % (enum, decl)) + ('<r xmlns:%s="u%s">' % (nm, s) if vname == 'ns-prefix-uri' else '<r>') + body + '</r>'
+            for cfg in (('sax2', 'always', 'IG'), ('dom', 'never', 'IG'), ('sax2', 'always', 'DG')) if L <= top else (('sax2', 'always', 'IG'),):
+                if cfg[1] == 'never' and L % 4:
+                    continue
+                if cfg[2] == 'DG' and L % 3:
+                    continue
+                C.append(core.Case('len.%s.%d.%s.%s.%s' % (vname, L, cfg[0], cfg[1], cfg[2]), 'parse', dict(api=cfg[0], val=cfg[1], scanner=cfg[2], ns=1, dump=0),
+                                   meta={'class': 'length-sweep:' + vname}).doc(text.encode()))
+    return C
+
+
 def run(tier):
     ck = core.Check(PID, tier)
     build.build_lib('asan')
@@ -225,9 +272,9 @@ def run(tier):
             ck.add_distinct(os.path.basename(f))
         stats['seed_inputs'] = nseeds
         # ------------------------------------------------ pathological shapes
-        cases = pathological_cases(ck, tier)
+        cases = pathological_cases(ck, tier) + length_sweep_cases(ck, tier)
         tp = time.time()
-        recs = core.run_cases(binary, cases, tag='c01p', per_case_timeout=120, shards=8)
+        recs = core.run_cases(binary, cases, tag='c01p', per_case_timeout=120, shards=16)
         for c in cases:
             r_ = recs.get(c.id)
             if r_ is None:
